@@ -17,6 +17,9 @@ pub struct Canon {
     inst: HashMap<(String, usize), String>,
     per_name: HashMap<String, usize>,
     born: Vec<(usize, usize, String)>,
+    /// per-slot hooked atomics inside a born object: token -> (first offset, stride, count)
+    arrays: HashMap<String, (usize, usize, usize)>,
+    freed: Vec<(usize, usize, String)>,
     born_cnt: HashMap<String, usize>,
     pub unresolved_sites: Vec<String>,
 }
@@ -70,6 +73,8 @@ impl Canon {
             inst: HashMap::new(),
             per_name: HashMap::new(),
             born: vec![],
+            arrays: HashMap::new(),
+            freed: vec![],
             born_cnt: HashMap::new(),
             unresolved_sites: vec![],
         }
@@ -137,7 +142,13 @@ impl Canon {
     }
 
     fn obj(&mut self, name: &str, addr: usize) -> String {
-        if let Some((_, _, tok)) = self.born_of(addr) {
+        if let Some((lo, _, tok)) = self.born_of(addr) {
+            if let Some((first, stride, count)) = self.arrays.get(tok) {
+                let off = addr - lo;
+                if *stride > 0 && off >= *first && (off - first) % stride == 0 && (off - first) / stride < *count {
+                    return format!("{name}@{tok}[{}]", (off - first) / stride);
+                }
+            }
             return format!("{name}@{tok}");
         }
         let key = (name.to_string(), addr);
@@ -149,6 +160,25 @@ impl Canon {
         *c += 1;
         self.inst.insert(key, i.clone());
         format!("{name}@{i}")
+    }
+
+    /// a value of a may_queue atomic: block pointers, possibly packed with an index in the low bits and a
+    /// flag in bit 63, print as `Tok`, `Tok+off`, `Tok+off!`; pointers into freed blocks as `Freed_Tok…`
+    fn mqval(&self, v: u64) -> String {
+        if v == u64::MAX {
+            return "-1".into();
+        }
+        let c = (v & !(1u64 << 63)) as usize;
+        let bang = if v >> 63 == 1 { "!" } else { "" };
+        if c > 4096 {
+            if let Some((lo, _, tok)) = self.born_of(c) {
+                return if c == *lo && bang.is_empty() { tok.clone() } else { format!("{tok}+{}{bang}", c - lo) };
+            }
+            if let Some((lo, _, tok)) = self.freed.iter().rev().find(|(lo, hi, _)| c >= *lo && c < *hi) {
+                return format!("Freed_{tok}+{}{bang}", c - lo);
+            }
+        }
+        format!("{}", v as i64)
     }
 
     fn val(&self, v: u64, ptr_ok: bool) -> String {
@@ -178,14 +208,33 @@ impl Canon {
                     let kind = it.next().unwrap_or("?").to_string();
                     let p: usize = it.next().and_then(|s| s.parse().ok()).unwrap_or(0);
                     let sz: usize = it.next().and_then(|s| s.parse().ok()).unwrap_or(0);
+                    let first: usize = it.next().and_then(|s| s.parse().ok()).unwrap_or(0);
+                    let stride: usize = it.next().and_then(|s| s.parse().ok()).unwrap_or(0);
+                    let count: usize = it.next().and_then(|s| s.parse().ok()).unwrap_or(0);
                     let c = self.born_cnt.entry(kind.clone()).or_insert(0);
                     let tok = format!("{kind}{}", *c);
                     *c += 1;
                     // a new generation: forget everything that overlapped this range
                     self.born.retain(|(lo, hi, _)| *hi <= p || *lo >= p + sz);
                     self.inst.retain(|(_, a), _| *a < p || *a >= p + sz);
+                    self.freed.retain(|(lo, hi, _)| *hi <= p || *lo >= p + sz);
                     self.born.push((p, p + sz, tok.clone()));
+                    if stride > 0 {
+                        self.arrays.insert(tok.clone(), (first, stride, count));
+                    }
                     return Some(format!("{} note - born {} 0 0 2 -", r.actor, tok));
+                }
+                if k == "free" {
+                    let _kind = it.next();
+                    let p: usize = it.next().and_then(|s| s.parse().ok()).unwrap_or(0);
+                    let mut tok = format!("{}", p);
+                    if let Some(i) = self.born.iter().position(|(lo, _, _)| *lo == p) {
+                        let e = self.born.remove(i);
+                        tok = e.2.clone();
+                        self.inst.retain(|(_, a), _| *a < e.0 || *a >= e.1);
+                        self.freed.push(e);
+                    }
+                    return Some(format!("{} note - free {} 0 0 2 -", r.actor, tok));
                 }
                 let rest: Vec<&str> = r.op.split_whitespace().collect();
                 Some(format!(
@@ -211,6 +260,19 @@ impl Canon {
                 let o = self.obj(&name, r.addr);
                 let ptr_arg = matches!(r.op.as_str(), "q.push" | "opt.store");
                 let ptr_res = matches!(r.op.as_str(), "q.pop" | "opt.take" | "q.peek");
+                if name.starts_with("mq.") {
+                    return Some(format!(
+                        "{} a {} {} {} {} {} {} {}",
+                        r.actor,
+                        o,
+                        r.op,
+                        self.mqval(r.arg),
+                        self.mqval(r.arg2),
+                        self.mqval(r.res),
+                        r.flag,
+                        ORD[(r.ord as usize).min(5)]
+                    ));
+                }
                 Some(format!(
                     "{} a {} {} {} {} {} {} {}",
                     r.actor,
